@@ -185,7 +185,7 @@ func cmdRun(args []string) int {
 		return 2
 	}
 	if *bound >= 0 {
-		e := &Explorer{sc: sc, prop: *prop, bound: *bound, stats: newStats(), maxViol: 5, replayEvery: 50, known: &KnownFindings{}}
+		e := &Explorer{sc: sc, prop: *prop, bound: *bound, stats: newStats(), maxViol: 8, replayEvery: 50, known: loadKnown(verifDir())}
 		t0 := time.Now()
 		e.explore(nil, *bound, 0)
 		fmt.Printf("execs=%d transitions=%d states=%d outcomes=%d endwhy=%v maxpoints=%d replays=%d wall=%v internal=%q\n", e.stats.Execs, e.stats.Transitions, len(e.stats.Keys),
